@@ -90,7 +90,7 @@ Lemma cc_numbers r : In r sysfuncs -> sf_type r = TkControlChangeCommand ->
   assoc (sf_name r) doc_cc = Some (sf_tag1 r) /\ assoc (sf_name r) named_controllers = Some (sf_tag1 r).
 Proof.
   intros H T. pose proof (proj1 (forallb_forall _ _) cc_rows_ok_b r H) as U. unfold cc_row_ok in U.
-  rewrite T in U. cbn [ttype_eqb] in U. rewrite ttype_eqb_refl in U.
+  rewrite T in U. rewrite ttype_eqb_refl in U.
   destruct (assoc (sf_name r) doc_cc); [|discriminate].
   destruct (assoc (sf_name r) named_controllers); [|discriminate].
   apply andb_prop in U. destruct U as [U1 U2]. apply Z.eqb_eq in U1. apply Z.eqb_eq in U2. subst. auto.
@@ -221,14 +221,14 @@ Lemma voices_thm :
 Proof.
   pose proof gm_programs_b as G. apply andb_prop in G. destruct G as [G1 G2].
   pose proof gm_percussion_b as P. apply andb_prop in P. destruct P as [P1 P2].
-  repeat split.
+  split; [|split; [|split; [|split; [|split]]]]; try (intros n v H; split).
   - apply pair_in_ok, doc_voices_defined_b.
   - apply pair_agrees_ok, voices_agree_doc_b.
   - apply pair_agrees_ok, doc_values_agree_b.
-  - eapply pair_in_ok; eauto.
-  - eapply pair_in_ok; eauto.
-  - eapply pair_in_ok; eauto.
-  - eapply pair_in_ok; eauto.
+  - exact (pair_in_ok _ _ G1 n v H).
+  - exact (pair_in_ok _ _ G2 n v H).
+  - exact (pair_in_ok _ _ P1 n v H).
+  - exact (pair_in_ok _ _ P2 n v H).
   - apply doc_voices_complete.
 Qed.
 
@@ -260,8 +260,7 @@ Proof.
     rewrite T in U. rewrite ttype_eqb_refl in U. destruct (assoc (sf_name r) named_rpn) as [[m l]|]; [|discriminate].
     apply andb_prop in U. destruct U as [U1 U2]. apply Z.eqb_eq in U1. apply Z.eqb_eq in U2. subst. reflexivity.
   - intros r H T. pose proof (proj1 (forallb_forall _ _) rpn_rows_ok_b r H) as U. unfold rpn_row_ok in U.
-    rewrite T in U. cbn [ttype_eqb ttype_id Z.eqb] in U. rewrite ttype_eqb_refl in U.
-    replace (ttype_eqb TkNRPNCommand TkRPNCommand) with false in U by reflexivity.
+    rewrite T in U. change (ttype_eqb TkNRPNCommand TkRPNCommand) with false in U. rewrite ttype_eqb_refl in U.
     destruct (assoc (sf_name r) named_nrpn) as [[m l]|]; [|discriminate].
     apply andb_prop in U. destruct U as [U1 U2]. apply Z.eqb_eq in U1. apply Z.eqb_eq in U2. subst. reflexivity.
   - intros n [m l] H. pose proof (proj1 (forallb_forall _ _) N1 _ H) as U. unfold named_param_ok in U. cbn [fst snd] in U.
